@@ -6,6 +6,7 @@ use std::time::Duration;
 
 use bevy::prelude::*;
 use bevy_replicon::prelude::*;
+use bevy_replicon::server::server_tick::ServerTick;
 use bevy_replicon_example_backend::{ExampleClient, ExampleServer, RepliconExampleBackendPlugins};
 use serde::{Deserialize, Serialize};
 
@@ -79,9 +80,31 @@ fn x_observe(t: Trigger<FromClient<UpT>>, mut got: ResMut<Got>) {
     got.0.push(format!("{}:2.{}.0.1", if t.client == SERVER { "L" } else { "R" }, t.event.0));
 }
 
+#[derive(Event, Serialize, Deserialize, Clone)]
+struct Extra(u32);
+
+fn x_mismatch(_t: Trigger<ProtocolMismatch>, mut got: ResMut<Got>) {
+    got.0.push("M:9.0.0.1".into());
+}
+
 fn build_x() -> App {
-    let mut app = build();
+    build_xc(false, false, false, false)
+}
+
+/// `extra`: one more registration than the other apps (a differing protocol); `dt20`: every frame advances time by 20 ms, so
+/// that Bevy's event buffers rotate every frame
+fn build_xc(proto: bool, manual: bool, dt20: bool, extra: bool) -> App {
+    let mut app = build_with(proto, manual);
     app.add_client_trigger::<UpT>(Channel::Ordered).add_observer(x_observe).add_systems(Update, x_log);
+    if proto {
+        app.add_observer(x_mismatch);
+    }
+    if extra {
+        app.add_server_event::<Extra>(Channel::Ordered);
+    }
+    if dt20 {
+        app.insert_resource(bevy::time::TimeUpdateStrategy::ManualDuration(Duration::from_millis(20)));
+    }
     app.finish();
     app
 }
@@ -92,7 +115,9 @@ fn build_x() -> App {
 /// `b:<k>:<size>` broadcast from the server, `c<i>:<k>:<size>` event of client i, `t<i>` trigger of client i.  Items are numbered
 /// in script order.  Output: the log of every app.
 pub fn backendx(args: &[&str]) -> String {
-    let mut server = build_x();
+    let script = args.first().copied().unwrap_or("");
+    let (proto, manual, dt20) = (script.contains("cfg:proto"), script.contains("cfg:manual"), script.contains("cfg:dt20"));
+    let mut server = build_xc(proto, manual, dt20, false);
     let sock = ExampleServer::new(0).unwrap();
     let mut port = sock.local_addr().unwrap().port();
     server.insert_resource(sock);
@@ -105,8 +130,12 @@ pub fn backendx(args: &[&str]) -> String {
                 eprintln!("before {step}: status={:?} up={} from={}", c.world().resource::<RepliconClient>().status(), c.world().resource::<Events<UpO>>().len(), c.world().resource::<Events<FromClient<UpO>>>().len());
             }
         }
-        if step == "Su" {
+        if step.starts_with("cfg:") {
+            continue;
+        } else if step == "Su" {
             server.update();
+        } else if step == "T" {
+            server.world_mut().resource_mut::<ServerTick>().increment();
         } else if step == "sl" {
             std::thread::sleep(Duration::from_millis(3));
         } else if step == "Sstop" {
@@ -119,8 +148,8 @@ pub fn backendx(args: &[&str]) -> String {
             let digits: String = rest.chars().take_while(|c| c.is_ascii_digit()).collect();
             let i: usize = digits.parse().unwrap();
             match &rest[digits.len()..] {
-                "new" => {
-                    let mut c = build_x();
+                "new" | "newx" => {
+                    let mut c = build_xc(proto, manual, dt20, &rest[digits.len()..] == "newx");
                     c.insert_resource(ExampleClient::new(port).unwrap());
                     clients.push(c);
                 }
@@ -132,7 +161,7 @@ pub fn backendx(args: &[&str]) -> String {
                     let s = ExampleClient::new(port).unwrap();
                     clients[i].insert_resource(s);
                 }
-                "solo" => clients.push(build_x()),
+                "solo" => clients.push(build_xc(proto, manual, dt20, false)),
                 _ => return "bad-step".into(),
             }
         } else if let Some(i) = step.strip_prefix('t') {
@@ -168,14 +197,34 @@ pub fn backendx(args: &[&str]) -> String {
         let g = std::mem::take(&mut c.world_mut().resource_mut::<Got>().0);
         parts.push(format!("C{i}={}", if g.is_empty() { "-".into() } else { g.join(",") }));
     }
-    parts.join(";")
+    // after `|`: connections the server still has / has authorized, then the status of every client app
+    let mut q = server.world_mut().query::<(Entity, Has<AuthorizedClient>)>();
+    let mut q2 = server.world_mut().query_filtered::<Entity, With<ConnectedClient>>();
+    let conn = q2.iter(server.world()).count();
+    let auth = q.iter(server.world()).filter(|(_, a)| *a).count();
+    let mut extra = vec![format!("N={conn}/{auth}")];
+    for (i, c) in clients.iter().enumerate() {
+        let st = match c.world().resource::<RepliconClient>().status() {
+            RepliconClientStatus::Connected => "connected",
+            RepliconClientStatus::Connecting => "connecting",
+            RepliconClientStatus::Disconnected => "disconnected",
+        };
+        extra.push(format!("C{i}st={st}"));
+    }
+    format!("{}|{}", parts.join(";"), extra.join(";"))
 }
 
 fn build() -> App {
+    build_with(false, false)
+}
+
+fn build_with(proto: bool, manual: bool) -> App {
     let mut app = App::new();
     app.add_plugins((
         MinimalPlugins,
-        RepliconPlugins.set(RepliconSharedPlugin { auth_method: AuthMethod::None }).set(ServerPlugin { tick_policy: TickPolicy::EveryFrame, ..Default::default() }),
+        RepliconPlugins
+            .set(RepliconSharedPlugin { auth_method: if proto { AuthMethod::ProtocolCheck } else { AuthMethod::None } })
+            .set(ServerPlugin { tick_policy: if manual { TickPolicy::Manual } else { TickPolicy::EveryFrame }, ..Default::default() }),
         RepliconExampleBackendPlugins,
     ))
     .add_server_event::<DownO>(Channel::Ordered)
